@@ -1250,13 +1250,31 @@ func c01RuleExecute(w *World, r *Report, pa *pipelineAnchors) {
 // ruleLiteralAllocs finds the allocations of the rule implementation struct in fn.
 func ruleLiteralAllocs(fn *ssa.Function, t *types.Named) []*ssa.Alloc {
 	var out []*ssa.Alloc
-	eachInstr(fn, func(in ssa.Instruction) {
-		if a, ok := in.(*ssa.Alloc); ok {
-			if p, ok := a.Type().(*types.Pointer); ok && types.Identical(p.Elem(), t) {
-				out = append(out, a)
+	collect := func(g *ssa.Function) {
+		eachInstr(g, func(in ssa.Instruction) {
+			if a, ok := in.(*ssa.Alloc); ok {
+				if p, ok := a.Type().(*types.Pointer); ok && types.Identical(p.Elem(), t) {
+					out = append(out, a)
+				}
 			}
+		})
+	}
+	collect(fn)
+	if len(out) > 0 || gWorld == nil {
+		return out
+	}
+	// the literal moved into a constructor helper of the same package that only fn calls: the values
+	// stored into it are the helper's parameters, which stand for the arguments (storedField, bindParam)
+	for _, ci := range callsIn(fn) {
+		callee := ci.Common().StaticCallee()
+		if callee == nil || callee.Blocks == nil || callee == fn || fnPkgPath(callee) != fnPkgPath(fn) {
+			continue
 		}
-	})
+		if edges := gWorld.CG().In[callee]; len(edges) != 1 || edges[0].Kind != "static" {
+			continue
+		}
+		collect(callee)
+	}
 	return out
 }
 
@@ -1278,7 +1296,7 @@ func storedField(a *ssa.Alloc, name string) (ssa.Value, *ssa.Store) {
 		if fr := fa.Referrers(); fr != nil {
 			for _, u := range *fr {
 				if st, ok := u.(*ssa.Store); ok && st.Addr == fa {
-					return st.Val, st
+					return bindParam(st.Val), st
 				}
 			}
 		}
